@@ -385,13 +385,31 @@ pub fn txout(r: &mut Rg, d: &TxDials) -> TxOut {
 }
 
 pub fn lock_time(r: &mut Rg) -> LockTime {
-    LockTime::from_consensus(match r.gen_range(0..6) {
+    let n = match r.gen_range(0..6) {
         0 => 0,
         1 => 499_999_999,
         2 => 500_000_000,
         3 => u32::MAX,
         _ => r.gen(),
-    })
+    };
+    // the same value through the different constructors
+    match r.gen_range(0..3) {
+        0 => LockTime::from_consensus(n),
+        1 => {
+            if n < 500_000_000 {
+                LockTime::from_height(n).expect("height below the threshold")
+            } else {
+                LockTime::from_time(n).expect("time at or above the threshold")
+            }
+        }
+        _ => {
+            if n < 500_000_000 {
+                LockTime::from(elements::locktime::Height::from_consensus(n).expect("height"))
+            } else {
+                LockTime::from(elements::locktime::Time::from_consensus(n).expect("time"))
+            }
+        }
+    }
 }
 
 pub fn tx(r: &mut Rg, d: &TxDials) -> Transaction {
